@@ -193,6 +193,7 @@ impl SubStat {
 
 thread_local! {
     static LAST_PANIC: RefCell<Option<String>> = RefCell::new(None);
+    static IN_GUARD: std::cell::Cell<u32> = std::cell::Cell::new(0);
 }
 
 pub fn install_panic_hook() {
@@ -208,6 +209,10 @@ pub fn install_panic_hook() {
             .location()
             .map(|l| format!("{}:{}", l.file(), l.line()))
             .unwrap_or_default();
+        if IN_GUARD.with(|g| g.get()) == 0 {
+            // a panic of the harness itself, outside any case: make it visible
+            eprintln!("harness panic: {} @ {}", msg, loc);
+        }
         LAST_PANIC.with(|p| *p.borrow_mut() = Some(format!("{} @ {}", msg, loc)));
     }));
 }
@@ -215,7 +220,10 @@ pub fn install_panic_hook() {
 /// Run `f`, turning a panic into Err(message with location).
 pub fn guarded<T>(f: impl FnOnce() -> T) -> Result<T, String> {
     LAST_PANIC.with(|p| *p.borrow_mut() = None);
-    match catch_unwind(AssertUnwindSafe(f)) {
+    IN_GUARD.with(|g| g.set(g.get() + 1));
+    let r = catch_unwind(AssertUnwindSafe(f));
+    IN_GUARD.with(|g| g.set(g.get() - 1));
+    match r {
         Ok(v) => Ok(v),
         Err(_) => Err(LAST_PANIC
             .with(|p| p.borrow_mut().take())
